@@ -31,6 +31,7 @@ type SpecEnv struct {
 	shadow     func(name string) (SpecVal, bool)
 	shadowable map[string]SpecVal
 	inOld      bool
+	rangeOf    func(ord int) (string, bool) // ghost key of the map range driving loop ord (0: the loop being annotated)
 	tparams map[string]types.Type // type parameters of the function under contract (usable as quantifier types)
 }
 
@@ -972,7 +973,36 @@ func (env *SpecEnv) call(e *Expr) (SpecVal, error) {
 		return v, err
 	case "visited":
 		// visited(k): k has been produced by the (unique) map range in scope
+		if len(args) == 2 && args[0].Kind == EInt && env.rangeOf != nil {
+			// visited(n, k): the map range driving loop n of the function
+			ord := int(args[0].Val.Int64())
+			key, ok := env.rangeOf(ord)
+			g, ok2 := env.cur.ghost[key]
+			if !ok || !ok2 {
+				return SpecVal{}, fmt.Errorf("visited(%d, k): loop %d is not a map range in scope", ord, ord)
+			}
+			kv, err := env.Eval(args[1])
+			if err != nil {
+				return SpecVal{}, err
+			}
+			kt := kv.T
+			if kv.Lit != nil {
+				kt = env.litTerm(kv.Lit, arrayKeySort(g.Sort))
+			}
+			return SpecVal{T: Select(g, kt)}, nil
+		}
 		as, err := evalArgs()
+		if err == nil && len(as) == 1 && env.rangeOf != nil {
+			if key, ok := env.rangeOf(0); ok {
+				if g, ok := env.cur.ghost[key]; ok {
+					kt := as[0].T
+					if as[0].Lit != nil {
+						kt = env.litTerm(as[0].Lit, arrayKeySort(g.Sort))
+					}
+					return SpecVal{T: Select(g, kt)}, nil
+				}
+			}
+		}
 		if err != nil || len(as) != 1 {
 			return SpecVal{}, fmt.Errorf("visited(k): %v", err)
 		}
@@ -1120,6 +1150,34 @@ func (env *SpecEnv) call(e *Expr) (SpecVal, error) {
 			return SpecVal{}, fmt.Errorf("received(): not a channel")
 		}
 		return SpecVal{T: Select(vc.recvCounts(env.cur, cht.Elem()), Rid(as[0].T))}, nil
+	case "setin", "setadd":
+		// ghost sets (ghost var s set[T]): membership and insertion
+		as, err := evalArgs()
+		if err != nil || len(as) != 2 || !strings.HasPrefix(string(as[0].T.Sort), "(Array ") {
+			return SpecVal{}, fmt.Errorf("%s(set, x): %v", name, err)
+		}
+		x := as[1].T
+		if as[1].Lit != nil {
+			x = env.litTerm(as[1].Lit, arrayKeySort(as[0].T.Sort))
+		}
+		if name == "setin" {
+			return SpecVal{T: Select(as[0].T, x)}, nil
+		}
+		return SpecVal{T: Store(as[0].T, x, True)}, nil
+	case "allocated":
+		// allocated(p): p points into an object that exists now (what Go guarantees of every
+		// pointer a program holds; an invariant has to carry it through a havoc)
+		as, err := evalArgs()
+		if err != nil || len(as) != 1 {
+			return SpecVal{}, fmt.Errorf("allocated(x): %v", err)
+		}
+		switch as[0].T.Sort {
+		case SRef:
+			return SpecVal{T: Lt(Rid(as[0].T), env.cur.alloc)}, nil
+		case SSlice:
+			return SpecVal{T: Lt(Rid(SBase(as[0].T)), env.cur.alloc)}, nil
+		}
+		return SpecVal{}, fmt.Errorf("allocated() of %s", as[0].T.Sort)
 	case "fresh":
 		as, err := evalArgs()
 		if err != nil || len(as) != 1 {
